@@ -72,6 +72,7 @@ type driver struct {
 	crnd     *rand.Rand // stream of the commit convoys (convoy.go); the history's own stream is not consumed by them
 	gate     *gateIC
 	res      *childResult
+	fault    *faultState // iofault histories only
 }
 
 func (d *driver) begin(kind, family string) *opRec {
@@ -349,14 +350,28 @@ func runHistoryChild() {
 
 	seam.NoFsync = true
 	seam.InstallKV(d.gate, nil)
+	if strings.HasPrefix(shape, "iofault:") {
+		k, _ := strconv.Atoi(strings.TrimPrefix(shape, "iofault:"))
+		d.fault = &faultState{plan: iofaultPlan(seed, k), d: d}
+		d.installFaultSeams()
+		if len(d.cfg.Families) > 2 {
+			d.cfg.Families = d.cfg.Families[:2]
+		}
+		if d.fault.plan.Op == "compact" && d.fault.plan.Nth > 1 {
+			d.cfg.MaxFileSize = 40 // several output tables
+		}
+		res.Extra = map[string]string{"fault": fmt.Sprintf("%+v", d.fault.plan)}
+	}
 	world.Enable(true)
 	world.Snapshot("initial")
 
 	var driveErr error
-	switch shape {
-	case "bigsnapshot":
+	switch {
+	case d.fault != nil:
+		driveErr = d.driveIOFault()
+	case shape == "bigsnapshot":
 		driveErr = d.driveBigSnapshot(tier)
-	case "bigtable":
+	case shape == "bigtable":
 		driveErr = d.driveBigTable()
 	default:
 		driveErr = d.driveRandom(tier)
@@ -382,6 +397,11 @@ func runHistoryChild() {
 	}
 	ver := &verifier{d: d, res: res}
 	for _, img := range images {
+		if d.fault != nil && d.fault.destructive && img.Index >= d.fault.at {
+			res.Counters["iofault.crash_images_not_verified_after_a_destructive_outcome"]++
+			_ = os.RemoveAll(img.Dir)
+			continue
+		}
 		inside := ver.verify(img)
 		if inside {
 			res.InsideImages++
@@ -404,7 +424,13 @@ func runHistoryChild() {
 		}
 		labels = append(labels, strings.ReplaceAll(img.Label, storeDir, "<store>"))
 	}
-	res.Sample = map[string]interface{}{"history": idx, "shape": shape, "config": fmt.Sprintf("%+v", d.cfg),
+	if d.fault != nil {
+		res.Counters["iofault.histories"]++
+		if fired, at := d.fault.firedNow(); fired {
+			res.Counters["iofault.crash_images_after_the_fault"] += len(images) - at
+		}
+	}
+	res.Sample = map[string]interface{}{"history": idx, "shape": shape, "fault": res.Extra["fault"], "config": fmt.Sprintf("%+v", d.cfg),
 		"ops": sampleOps, "first_image_labels": labels, "images": len(images)}
 	data, _ := json.Marshal(res)
 	if err := os.WriteFile(filepath.Join(dir, "result.json"), data, 0o644); err != nil {
